@@ -154,7 +154,7 @@ def chen_visitor(rp, history, answers, out, opts):
     # antisymmetry
     for (a, b), (W, U, A) in table.items():
         if A is not None and A.dim() == W.dim() + 1:
-            if float((A + A.transpose(-1, -2)).abs().max()) > 1e-14 * _scale(A):
+            if float((A + A.transpose(-1, -2)).abs().max()) > (1e-14 if A.dtype == torch.float64 else 1e-6) * _scale(A):
                 _viol(out, rp, history, 'antisym', f"A({a},{b}) is not antisymmetric", probes)
                 return
             out.count('antisym_checked')
